@@ -637,6 +637,8 @@ class Interp:
                     and (len(f.name.split('::')) == 1 or f.name.split('::')[:-1] == segs[:-1] or all(s in self._MODS for s in f.name.split('::')[:-1]))]
             if len(hits) == 1:
                 return hits[0]
+            if len(hits) > 1 and len({f.name for f in hits}) == 1 and len({len(f.blocks) for f in hits}) == 1:
+                return hits[0]          # a tuple-struct constructor is printed once per use as a function
             if len(hits) > 1:
                 raise Unsupported('ambiguous crate fn ' + callee)
         return None
